@@ -105,7 +105,11 @@ impl Prop for C10 {
       for st in p.stmts.iter() {
         let mut prev = "";
         for _ in 0..rng.below(3) { let (k, t) = *rng.pick(&PROSE); if prev == "bullet-list" && (k == "check-list" || k == "comment") { continue; } prev = k; kinds.insert(k); blocks.push(t.to_string()); }
-        blocks.push(st.clone());
+        // one statement in four carries a comment on the same line, glued to the last operand or separated by a blank (document only)
+        // (glued only to a plain number: names may contain dashes and slashes, so `a--b` and `u8//3` are not comments)
+        let ends_in_number = { let t = st.trim_end(); let tail: String = t.chars().rev().take_while(|c| c.is_ascii_digit() || *c == '.').collect(); !tail.is_empty() && !tail.starts_with('.') && t[..t.len() - tail.len()].ends_with(|c: char| c == ' ' || c == '[' || c == '(') };
+        let glued = if rng.chance(1, 4) { if ends_in_number { *rng.pick(&["--3", "--note", "-- x = 9", " -- note", " --3 spare", " // note"]) } else { *rng.pick(&[" -- note", " --3 spare", " // note", " -- x = 9"]) } } else { "" };
+        blocks.push(format!("{}{}", st, glued));
       }
       for _ in 0..rng.below(2) { let (k, t) = *rng.pick(&PROSE); kinds.insert(k); blocks.push(t.to_string()); }
       out.push(Case { id: format!("interleaved;n={}", i), cell: format!("interleaved;titled={}", titled), input: json!({"mode": "prose", "doc": blocks.join("\n\n"), "code": p.stmts.join("\n")}) });
